@@ -284,7 +284,7 @@ def _run_failsave(case):
     sc = core.Scale(*case["scale"])
     d = os.path.join(WORK, "c13save.%d" % os.getpid())
     os.makedirs(d, exist_ok=True)
-    fn = os.path.join(d, "out.TextGrid")
+    fn = core.fname(os.path.join(d, "out.TextGrid"))
     fails = []
     try:
         tg, specs = _rand_tg(rng, sc)
